@@ -78,12 +78,21 @@ def gen_types(rng, n_enums):
         nv = rng.range(1, 6)
         vs = []
         parts = []
+        # discriminant styles: none, spread out explicit values, or explicit values packed into the range the automatic
+        # ones would use (0..nv+1, in any order, before or after automatic variants), so that automatic numbering has
+        # to step over one or several claimed values
+        style = rng.pick(["auto", "spread", "packed", "packed", "packed_all"])
+        packed = rng.sample(list(range(0, nv + 2)), nv)
         for i in range(nv):
             pl = rng.pick(PAYLOADS)
             vname = "V%d" % i
             disc = ""
-            if rng.chance(1, 4):
+            if style == "spread" and rng.chance(1, 3):
                 disc = f" | {10 + i * 7}"
+            elif style == "packed" and rng.chance(1, 2):
+                disc = f" | {packed[i]}"
+            elif style == "packed_all" and i > 0:
+                disc = f" | {packed[i]}"
             parts.append(vname + (f": {pl}" if pl else "") + disc)
             val = 1000 * (k + 1) + i
             ename = f"E{k}"
@@ -124,7 +133,7 @@ def gen_switches(rng, tys, n):
     for sid in range(1, n + 1):
         t = rng.pick(tys)
         nv = len(t.variants)
-        cls = rng.pick(["all", "all", "subset", "subset", "dup", "foreign", "unknown_short", "all_default", "empty_default"])
+        cls = rng.pick(["all", "all", "subset", "subset", "dup", "foreign", "unknown_short", "all_default", "empty_default", "empty"])
         idxs = list(range(nv))
         rng.shuffle(idxs)
         arms = []
@@ -135,6 +144,8 @@ def gen_switches(rng, tys, n):
             chosen, default = idxs, True
         elif cls == "empty_default":
             chosen, default = [], True
+        elif cls == "empty":
+            chosen, default = [], False
         elif cls == "subset":
             chosen = idxs[: rng.range(0, max(0, nv - 1))]
             default = rng.chance(1, 2)
@@ -188,6 +199,8 @@ def switch_line(sw):
         did = sw["sid"] * 100 + 90
         probes = " ".join(f"if #is_variant(v, {v['name']}) {{ vr_ev({sw['sid'] * 100 + 50 + i}); }}" for i, v in enumerate(t.variants))
         parts.append(f"_ => {{ vr_ev({did}); {probes} }}")
+    if not parts:
+        return f"sw{sw['sid']} :: (e: {t.name}) {{ switch v in e {{}} }}"
     return f"sw{sw['sid']} :: (e: {t.name}) {{ switch v in e {{ {', '.join(parts)}, }} }}"
 
 
